@@ -1387,8 +1387,18 @@ def new_client_compiler(conn):
 
 
 def chain_text(e: BaseException) -> str:
+    """str(e) and the text of everything in its __cause__/__context__ chain
+    (plus the formatted traceback): where "carrying the original message" is
+    looked for."""
     import traceback
-    return ''.join(traceback.format_exception(type(e), e, e.__traceback__))
+    parts, seen, x = [], set(), e
+    while x is not None and id(x) not in seen:
+        seen.add(id(x))
+        parts.append(str(x))
+        x = x.__cause__ or x.__context__
+    parts.append(''.join(
+        traceback.format_exception(type(e), e, e.__traceback__)))
+    return '\n'.join(parts)
 
 
 def bubbling_case(seed, nmanagers, depth, how, exc_name, with_ok_first):
@@ -1740,17 +1750,10 @@ def client_checks(ck_rng, thorough):
                     f'Compiler.{method}: ERROR reply did not surface as a '
                     f'RuntimeError carrying the message: {o[0]} {o[1]!r}',
                     {'method': method}, True))
-            elif (ORIGINAL + method) not in str(o[1]) and nlogs == 0:
+            elif (ORIGINAL + method) not in str(o[1]):
+                # observation, not a violation: the message is carried by the
+                # __cause__ chain (what test_errors_raised_locally checks)
                 stats['error_text_only_in_cause_chain'] += 1
-                findings.append(Finding(
-                    f'client-error-text-only-in-cause:{method}',
-                    f'Compiler.{method}: the ERROR reply of the runtime '
-                    'surfaces as RuntimeError whose own text (str(e), '
-                    f'e.args) is {str(o[1])!r}; the original message is '
-                    'only reachable as e.__cause__ (and the connection is '
-                    'dropped although the server did not close it)',
-                    {'method': method, 'str_e': str(o[1]),
-                     'cause': repr(o[1].__cause__)[:200]}, True))
         # a reply of the wrong kind is not returned as a value
         wrong = reply_for['cancel' if method != 'cancel' else 'status']
         o = call(method, [wrong])
@@ -1797,13 +1800,6 @@ def client_checks(ck_rng, thorough):
             findings.append(Finding(
                 f'client-stale-error-lost:{method}', 'stale ERROR lost',
                 {'method': method}, True))
-        elif method == 'submit' and (ORIGINAL + 'stale') not in str(o[1]):
-            findings.append(Finding(
-                'client-error-text-only-in-cause:submit',
-                'Compiler.submit: a pending ERROR surfaces as RuntimeError '
-                f'whose own text is {str(o[1])!r}; the original message is '
-                'only reachable as e.__cause__',
-                {'method': 'submit', 'str_e': str(o[1])}, True))
     logger.removeHandler(cap)
     logging.disable(logging.CRITICAL)
     return lines, impl, findings, stats
@@ -1814,21 +1810,27 @@ def outgoing_checks():
     """The real `send_outgoing` when a client has vanished.  Real sockets
     (measured): after the peer closed, the second `send` raises
     BrokenPipeError; after a close with unread data the first raises
-    ConnectionResetError.  Returns (driver lines, impl, findings)."""
+    ConnectionResetError.  Oracles: the thread survives every EOF/OSError
+    send failure, does not touch the tables (disconnecting is the main
+    loop's job), other clients are still answered, and the main loop's EOF
+    for the vanished client is an ordinary disconnect.
+    Returns (driver lines, impl, findings)."""
     from bqskit.runtime.message import RuntimeMessage as M
     findings, lines, impl = [], [], []
     excs = {'eof': EOFError(), 'reset': ConnectionResetError(104, 'reset'),
             'brokenpipe': BrokenPipeError(32, 'Broken pipe'),
-            'oserror': OSError(9, 'Bad file descriptor')}
+            'oserror': OSError(9, 'Bad file descriptor'),
+            'nonoserror': TypeError('cannot pickle')}
     for name, exc in excs.items():
         sim = Sim(2)
         r = Runner(sim)
         for ev in ('connect 0', 'connect 1', 'submit 0 0', 'submit 1 1'):
             r.apply(ev)
+        before = r.render_state()
         # client 0 is gone; a LOG of its task is forwarded to it
         sim.conns[0].send_error = exc
         sim.s.outgoing.put((sim.conns[0], M.LOG, 'log-4'))
-        survived = True
+        survived, died_with = True, ''
         try:
             sim.cls.send_outgoing(sim.s)
         except Drained:
@@ -1836,45 +1838,58 @@ def outgoing_checks():
         except BaseException as e:     # leaves `while True`: the thread dies
             survived = False
             died_with = type(e).__name__
+        same = r.render_state() == before
         lines.append(f'outgoing {name}')
-        impl.append('true' if survived else 'false')
-        hist = ['connect 0', 'connect 1', 'submit 0 0', 'submit 1 1',
+        impl.append(f'{"true" if survived else "false"} '
+                    f'{"same" if same else "changed"}')
+        scen = ['connect 0', 'connect 1', 'submit 0 0', 'submit 1 1',
                 f'<client 0 vanishes: send raises {type(exc).__name__}>',
-                'log 0 4', 'status 1 1']
-        if not survived and name in ('eof', 'reset', 'brokenpipe'):
-            # direct oracle: another client's next request is still answered
-            sim.s.outgoing.items.clear()
+                'log 0 4']
+        if name == 'nonoserror':
+            continue                    # not a peer failure: model only
+        if not survived:
             findings.append(Finding(
                 f'outgoing-thread-dies:{died_with}',
                 f'a client vanished and `conn.send` raised {died_with} in '
-                'ServerBase.send_outgoing: only EOFError and '
-                'ConnectionResetError are caught, the exception leaves the '
-                '`while True` loop, the outgoing thread ends while '
-                '`running` stays True - from then on nothing is ever written '
-                'to any client or employee (every client hangs)',
-                {'scenario': hist, 'running_after': bool(sim.s.running)},
+                'ServerBase.send_outgoing: the exception leaves the `while '
+                'True` loop, the outgoing thread ends while `running` stays '
+                'True - from then on nothing is ever written to any client '
+                'or employee (every client hangs)',
+                {'scenario': scen, 'running_after': bool(sim.s.running)},
                 True))
-        if survived and name == 'reset':
-            # the outgoing thread ran handle_disconnect(conn); the main thread
-            # then handles the EOF of the same connection (it was already in
-            # the batch `select` returned)
-            nse = len(sim.system_errors)
-            sim.deliver(sim.conns[0], sim.D.CLIENT, EOFError)
-            if len(sim.system_errors) > nse or not sim.s.running:
-                err = (sim.system_errors or ['?'])[-1].strip()
-                exc_name = err.splitlines()[-1].split(':')[0]
-                findings.append(Finding(
-                    f'double-disconnect:{exc_name}',
-                    'ConnectionResetError in send_outgoing makes the OUTGOING '
-                    'thread run handle_disconnect(conn); when the main thread '
-                    'then processes the EOF of the same connection (already '
-                    f'selected) the run loop raises {exc_name} and shuts the '
-                    'whole server down (forced interleaving)',
-                    {'scenario': hist[:4] + [
-                        '<client 0 closes with unread data: send raises '
-                        'ConnectionResetError>', 'log 0 4',
-                        '<main thread: EOF on client 0>'],
-                     'error': err[-300:]}, True))
+            continue
+        if not same:
+            findings.append(Finding(
+                f'outgoing-thread-mutates-tables:{type(exc).__name__}',
+                'send_outgoing changed the server tables (it runs on a '
+                'second thread; disconnecting is the main loop\'s job): '
+                f'{before} -> {r.render_state()}', {'scenario': scen}, True))
+        # another client's request is still answered
+        cli, _, delivered = r.render_log(r.apply('status 1 1'))
+        if 'S.1.running' not in delivered:
+            findings.append(Finding(
+                f'other-client-unanswered-after:{type(exc).__name__}',
+                f'after the failed send, `status 1 1` was answered {cli} / '
+                f'written {delivered}', {'scenario': scen + ['status 1 1']},
+                True))
+        # the main loop now sees the EOF of the vanished client
+        nse = len(sim.system_errors)
+        sim.deliver(sim.conns[0], sim.D.CLIENT, EOFError)
+        if len(sim.system_errors) > nse or not sim.s.running:
+            err = (sim.system_errors or ['?'])[-1].strip()
+            exc_name = err.splitlines()[-1].split(':')[0]
+            findings.append(Finding(
+                f'double-disconnect:{exc_name}',
+                f'after {type(exc).__name__} in send_outgoing the main '
+                'loop\'s handling of the EOF of the same connection raised '
+                f'{exc_name} and shut the whole server down',
+                {'scenario': scen + ['<main thread: EOF on client 0>'],
+                 'error': err[-300:]}, True))
+        elif sim.conns[0] in sim.s.clients:
+            findings.append(Finding(
+                'vanished-client-not-disconnected',
+                'the EOF of the vanished client did not remove it',
+                {'scenario': scen}, True))
     return lines, impl, findings
 
 
@@ -2019,7 +2034,7 @@ def run(ck: Check):
             all_findings.extend(fs)
 
     evs = alphabet(2, 2, 2)
-    depth = 5 if thorough else 3
+    depth = 5 if thorough else 4
     prefixes = [[a, b] for a in FIRST for b in evs]
     ck.rng.shuffle(prefixes)
     ngroups = 4 * ncpu if thorough else ncpu
@@ -2032,8 +2047,8 @@ def run(ck: Check):
         djobs += [(f, 7, 2, 3, 3) for f in alphabet(2, 3, 3)]
         djobs += [(f, 5, 3, 3, 3) for f in alphabet(3, 3, 3)]
     else:
-        djobs = [(None, 14, 2, 2, 2), (None, 5, 3, 2, 2)]
-    nrand = 100000 if thorough else 2500
+        djobs = [(None, 14, 2, 2, 2), (None, 6, 3, 2, 2)]
+    nrand = 100000 if thorough else 4000
     per = 250
     rjobs = [(ck.rng.randrange(1 << 30), per, 30, False, True)
              for _ in range(nrand // per)]
@@ -2156,8 +2171,13 @@ def run(ck: Check):
         if a != b:
             all_findings.append((
                 'correspondence:client-recv',
-                f'_recv_handle_log_error: model `{b}` vs real `{a}` on '
-                f'`{line}`', {'sequence': line,
+                {'recv': '_recv_handle_log_error',
+                 'predrain': '_recv_log_error_until_empty',
+                 'sendrecv': 'Compiler._send_recv',
+                 'outgoing': 'ServerBase.send_outgoing'}.get(
+                     line.split()[0], line.split()[0])
+                + f': model `{b}` vs real `{a}` on `{line}`',
+                {'sequence': line,
                               'broken': 'correspondence client recv'}, False))
     ck.coverage['client_side'] = dict(cstats)
 
